@@ -406,8 +406,21 @@ impl MqttShared {
     fn pkt_ack_inner(&self, pkt: Ack) -> Result<(), error::ProtocolError> {
         let mut queues = self.queues.borrow_mut();
 
-        // check ack order
-        if let Some((idx, tx, tp)) = queues.inflight.pop_front() {
+        // check ack order. PUBCOMP answers the PUBREL of its own exchange, which is written
+        // when the application releases the publish - these entries are not part of the
+        // sending order. Every other ack answers the oldest entry that does not wait for PUBCOMP
+        let pos = if matches!(pkt, Ack::Complete(_)) {
+            let id = pkt.packet_id();
+            queues
+                .inflight
+                .iter()
+                .position(|(idx, _, tp)| *idx == id && matches!(tp, AckType::Complete))
+        } else {
+            queues.inflight.iter().position(|(_, _, tp)| !matches!(tp, AckType::Complete))
+        };
+        if let Some(pos) = pos
+            && let Some((idx, tx, tp)) = queues.inflight.remove(pos)
+        {
             if idx != pkt.packet_id() {
                 log::trace!(
                     "MQTT protocol error, packet_id order does not match, expected {}, got: {}",
